@@ -49,7 +49,7 @@ KeyNibs == {0, 3, 4, 5, 15}       \* IPv4, IPv6, SVC, an unknown 8-byte type, an
 
 (* (i) all 16 x 16 nibble pairs x path types, UDP payload of 8 bytes; x truncation points *)
 GNib(dn) == UNION {WithTruncs([V(dn, sn, pt, 2, 0, 0, 8, 17, 8) EXCEPT !.pairs = (dn \in KeyNibs /\ sn \in KeyNibs)]) :
-                     sn \in Nibs, pt \in PathTypes}
+                     sn \in Nibs, pt \in (IF THOROUGH THEN PathTypes ELSE {0, 1, 2, 200})}
 
 (* (ii) standard path: segment-length triples over boundary values x three address pairs *)
 SegVals == IF THOROUGH THEN {0, 1, 2, 31, 62, 63} ELSE {0, 1, 2, 63}
